@@ -14,14 +14,14 @@ ID = "C20"
 LEVEL = "exploration"
 BUDGET = {"quick": {"cases": 5000}, "thorough": {"cases": 80000, "soft_deadline": 1500}}
 RULE = (
-    "case = (network n<=6 [7] weighted to diamond/deep cores, history A of 1-6 expansion/skip/block/scc/build calls, second "
+    "case = (network n<=6 [7] weighted to diamond/deep cores, history A of 1-6 expansion/skip/block/scc/build calls, attractor queries, reclaim and pickle, second "
     "history B on the same or a mutated network, find_node queries, optional final build()); oracle after every step: depth(i) = "
     "longest root->i path recomputed from the DAG, depth() = max, ids contiguous from root 0, len, stub/expanded partition, "
     "find_node = exact space match; at the end is_subgraph/is_isomorphic = node+edge set inclusion/equality, and summary() after "
     "build() lists every brute-force attractor exactly once with the right label; non-trivial = a node with >=2 parents at "
     "different depths, or stubs present when build()/summary() runs"
 )
-OPS = ops.PLAIN_OPS + ops.SKIP_OPS + ops.STRUCT_OPS + ("bfs", "dfs", "succ", "succ")
+OPS = ops.PLAIN_OPS + ops.SKIP_OPS + ops.STRUCT_OPS + ("bfs", "dfs", "succ", "succ", "seeds", "allseeds", "reclaim", "pickle")
 
 
 @st.composite
